@@ -519,4 +519,14 @@ Section Tie.
     unfold tden, setup_ss_comp. cbn [tdenS].
     repeat split; intros; unfold apply; cbn; reflexivity.
   Qed.
+  (* ---------------------------------------------------------------- model(): where the inert amounts are set and given back *)
+
+  (* On every path through the statements of model() before its iteration loop: set_inert_moles has been called before
+     model_pz() / model_sit() is entered and before control reaches the loop, and every return is preceded by
+     unset_inert_moles; after the loop every return is preceded by unset_inert_moles.  (Both dispatches do occur.) *)
+  Lemma inert_amounts_cover_every_solver :
+      call_order model_head false = OFalls true /\
+      call_order model_ret true = OReturned /\
+      stmt_uses ["model_pz()"] model_head = true /\ stmt_uses ["model_sit()"] model_head = true.
+  Proof. vm_compute. repeat split; reflexivity. Qed.
 End Tie.
